@@ -147,10 +147,13 @@ impl<F: Field> Claims<F> {
         match &self.w[i] {
             None => self.w[i] = Some((v, kind, origin())),
             Some((old, k, o)) => {
-                if *old != v && self.fail.is_none() {
-                    let (x, y) = if *k <= kind { (*k, kind) } else { (kind, *k) };
+                // keep the conflict with the smallest kind: the reported clause must not depend
+                // on the order in which rows are visited
+                let (x, y) = if *k <= kind { (*k, kind) } else { (kind, *k) };
+                let this_kind = format!("claims({x} vs {y})");
+                if *old != v && self.fail.as_ref().is_none_or(|f| this_kind < f.kind) {
                     self.fail = Some(clause(
-                        format!("claims({x} vs {y})"),
+                        this_kind,
                         format!(
                             "no global assignment: slot w{} is {:?} in {} but {:?} in {}",
                             s.0,
